@@ -104,6 +104,9 @@ pub struct ProgCfg {
     /// all order types (true) or Standard / Iceberg / Reserve only (false)
     pub all_kinds: bool,
     pub zero_pct: u32,
+    /// 33-130 one-fill filler orders queued behind the preload (a deep book: code gated on the
+    /// number of resting orders is reached, the number of scheduled steps per call stays the same)
+    pub deep: bool,
 }
 
 impl ProgCfg {
@@ -115,6 +118,7 @@ impl ProgCfg {
             w: [15, 35, 20, 22, 8],
             all_kinds: false,
             zero_pct: 4,
+            deep: false,
         }
     }
 }
@@ -186,7 +190,8 @@ pub fn gen_program(rng: &mut Rng, cfg: &ProgCfg) -> Program {
             ops.push(match k {
                 0 => COp::Add(adds[ti][oi].unwrap()),
                 1 => COp::Match {
-                    qty: rng.range(1, 14),
+                    // on a deep book one match in four sweeps everything that is displayed
+                    qty: if cfg.deep && rng.chance(1, 4) { 10_000 } else { rng.range(1, 14) },
                     taker: model::oid(9_000 + (ti * 10 + oi) as u64),
                 },
                 2 => {
@@ -204,6 +209,22 @@ pub fn gen_program(rng: &mut Rng, cfg: &ProgCfg) -> Program {
             });
         }
         threads.push(ops);
+    }
+    if cfg.deep {
+        let n = *rng.pick(&[33usize, 40, 64, 65, 70, 100, 129]);
+        for i in 0..n {
+            preload.push(model::mk(
+                model::Kind::Standard,
+                model::oid(50_000 + i as u64),
+                price,
+                rng.range(1, 5),
+                0,
+                side,
+                ts + 10 * i as u64,
+                pricelevel::TimeInForce::Gtc,
+                &model::Params::default(),
+            ));
+        }
     }
     Program {
         price,
